@@ -7,6 +7,8 @@
 #include "uspg_3d.hpp"
 #include "uspg_4d.hpp"
 #include <algorithm>
+#include <map>
+#include <memory>
 
 int main(int argc, char** argv) {
     if (argc < 3) { fprintf(stderr, "usage: grid_driver cases obs\n"); return 2; }
@@ -25,6 +27,18 @@ int main(int argc, char** argv) {
         uspg_3d<int> g3(P(lo[0]), P(lo[1]), P(lo[2]), P(hi[0]), P(hi[1]), P(hi[2]), (double)s * unit, nobj);
         auto nb4 = g4.get_nb_voxels();
         auto nb3 = g3.get_nb_voxels();
+        // the same questions to grids that are RE-USED from case to case through update_dimensions (one per voxel size, as the contact
+        // models re-use theirs at every iteration): their answers must be those of the freshly constructed grids
+        static std::map<double, std::unique_ptr<uspg_4d<int>>> R4;
+        static std::map<double, std::unique_ptr<uspg_3d<int>>> R3;
+        const double vs = (double)s * unit;
+        bool reuse_same = true;
+        auto& r4 = R4[vs]; auto& r3 = R3[vs];
+        if (!r4) r4 = std::make_unique<uspg_4d<int>>(P(lo[0]), P(lo[1]), P(lo[2]), P(hi[0]), P(hi[1]), P(hi[2]), vs, nobj);
+        else r4->update_dimensions(nobj, P(lo[0]), P(lo[1]), P(lo[2]), P(hi[0]), P(hi[1]), P(hi[2]));
+        if (!r3) r3 = std::make_unique<uspg_3d<int>>(P(lo[0]), P(lo[1]), P(lo[2]), P(hi[0]), P(hi[1]), P(hi[2]), vs, nobj);
+        else r3->update_dimensions(nobj, P(lo[0]), P(lo[1]), P(lo[2]), P(hi[0]), P(hi[1]), P(hi[2]));
+        if (r4->get_nb_voxels() != nb4 || r3->get_nb_voxels() != nb3) reuse_same = false;
 
         auto inside = [](const std::array<unsigned, 3>& v, const std::array<unsigned, 3>& nb) {
             return v[0] < nb[0] && v[1] < nb[1] && v[2] < nb[2];
@@ -49,6 +63,9 @@ int main(int argc, char** argv) {
             auto v3 = g3.get_3d_voxel_index(P(p[0]), P(p[1]), P(p[2]));
             if (inside(v4, nb4)) g4.place_object((int)i + 1, P(p[0]), P(p[1]), P(p[2])); else oob.push_back((int)i + 1);
             if (inside(v3, nb3)) g3.place_object((int)i + 1, P(p[0]), P(p[1]), P(p[2]));
+            if (r4->get_3d_voxel_index(P(p[0]), P(p[1]), P(p[2])) != v4 || r3->get_3d_voxel_index(P(p[0]), P(p[1]), P(p[2])) != v3) reuse_same = false;
+            if (reuse_same && inside(v4, nb4)) r4->place_object((int)i + 1, P(p[0]), P(p[1]), P(p[2]));
+            if (reuse_same && inside(v3, nb3)) r3->place_object((int)i + 1, P(p[0]), P(p[1]), P(p[2]));
         }
         o.key("oob").iarr(oob);
 
@@ -75,6 +92,16 @@ int main(int argc, char** argv) {
                 if (oc) c3 = oc.value();
             }
             std::sort(n4.begin(), n4.end()); std::sort(n3.begin(), n3.end());
+            if (reuse_same) {
+                if (r4->get_3d_voxel_index(P(x), P(y), P(z)) != v4 || r3->get_3d_voxel_index(P(x), P(y), P(z)) != v3) reuse_same = false;
+                else {
+                    std::vector<int> m4, m3;
+                    if (in4) for (int id : r4->get_neighborhood(P(x), P(y), P(z))) m4.push_back(id);
+                    if (in3) for (int id : r3->get_neighborhood(P(x), P(y), P(z))) m3.push_back(id);
+                    std::sort(m4.begin(), m4.end()); std::sort(m3.begin(), m3.end());
+                    if (m4 != n4 || m3 != n3) reuse_same = false;
+                }
+            }
             o.key("n4").iarr(n4); o.key("n3").iarr(n3);
             o.key("c4").iarr(c4);   // in the list order of the implementation
             o.key("c3").i(c3);
@@ -86,6 +113,14 @@ int main(int argc, char** argv) {
         for (int id : g3.get_grid_content()) gc3.push_back(id);
         std::sort(gc4.begin(), gc4.end()); std::sort(gc3.begin(), gc3.end());
         o.key("g4").iarr(gc4); o.key("g3").iarr(gc3);
+        if (reuse_same) {
+            std::vector<int> h4, h3;
+            for (int id : r4->get_grid_content()) h4.push_back(id);
+            for (int id : r3->get_grid_content()) h3.push_back(id);
+            std::sort(h4.begin(), h4.end()); std::sort(h3.begin(), h3.end());
+            if (h4 != gc4 || h3 != gc3) reuse_same = false;
+        }
+        o.key("reuse_same").b(reuse_same);
         o.end_obj();
         fprintf(fo, "%s\n", o.text().c_str());
     }
